@@ -313,6 +313,13 @@ class Monitor(object):
                     self.bad('attribution', 'read-only node announced on connection %d whose message was %r' % (c.cid, m))
                 self.named[c.cid] = 'readonly'
                 self.ro_of[c.cid] = node.id
+                # every read-only connection is a node of its own: its id must not be one a live connection carries
+                for o in self.w.conns:
+                    if o.cid != c.cid and self.ro_of.get(o.cid) == node.id and \
+                            getattr(self, 'states_before', {}).get(o.cid) == CONNECTED:
+                        self.bad('readonly-id', 'read-only connection %d was given the id %r of read-only connection %d, which is '
+                                 'still connected (answers for one reach the other, the older connection is closed as superseded)'
+                                 % (c.cid, node.id, o.cid))
             else:
                 if not isinstance(m, str) or m != node.address:
                     self.bad('attribution', 'node %r announced on connection %d whose handshake named %r' % (k, c.cid, m))
@@ -590,6 +597,7 @@ class Impl(object):
         w.current_conn = None
         w.send_fault = False
         w.util_raise = False
+        self.mon.states_before = dict((c.cid, c.state) for c in w.conns)
         kind = act[0]
         try:
             if kind == 'tick':
@@ -840,6 +848,41 @@ def _gen_and_run(rng, seed, world, TR, ND, CF, n_events):
         inc = lambda: (('incoming',), 'incoming_new', None)
         return [(None, inc), (None, hs), (None, m), (None, snd), (None, cl), (None, snd)]
 
+    def sc_readonly_rejoin():
+        """several read-only nodes on one voter; one that is not the newest leaves, another one joins while the others
+        are still connected: every live read-only connection keeps an id of its own"""
+        box = {'cs': []}
+
+        def hs():
+            c = newest_unknown()
+            if c is None:
+                return None
+            box['cs'].append(c.cid)
+            return ('msg', c.cid, (1, 0), 0), 'handshake_readonly', None
+
+        def cl_first():
+            if len(box['cs']) < 2:
+                return None
+            return ('closed', box['cs'][0]), 'reset', None
+
+        def m_last():
+            if not box['cs']:
+                return None
+            return ('msg', box['cs'][-1], (4, rng.randrange(5)), 0), 'message', None
+
+        def m_mid():
+            if len(box['cs']) < 3:
+                return None
+            return ('msg', box['cs'][1], (4, rng.randrange(5)), 0), 'message', None
+        if self_rank is None:
+            return []
+        inc = lambda: (('incoming',), 'incoming_new', None)
+        seq = []
+        for _ in range(rng.choice([2, 3, 3])):
+            seq += [(None, inc), (None, hs)]
+        seq += [(None, cl_first), (None, inc), (None, hs), (None, m_last), (None, m_mid)]
+        return seq
+
     def sc_utility():
         box = {}
 
@@ -860,7 +903,7 @@ def _gen_and_run(rng, seed, world, TR, ND, CF, n_events):
         inc = lambda: (('incoming',), 'incoming_new', None)
         return [(None, inc), (None, um), (None, rep)]
 
-    scenarios = [sc_stale_replaced, sc_stale_replaced, sc_refuse_retry, sc_blackhole, sc_both_sides, sc_readonly_peer, sc_utility]
+    scenarios = [sc_stale_replaced, sc_stale_replaced, sc_refuse_retry, sc_blackhole, sc_both_sides, sc_readonly_peer, sc_readonly_rejoin, sc_utility]
 
     for _ in range(n):
         forced = None
